@@ -6,6 +6,7 @@ CONSTANTS Mode = "header"
           Wait = 1
           ForkAt = 203
           DepositAt = 203
+          LeadZ = 1
           Heights = {199, 200, 202, 203, 210}
           EmitOn = TRUE
 INVARIANT PropC23
